@@ -189,6 +189,7 @@ impl AsyncFileSystem for AsyncMemoryFS {
         if !found_directory {
             return Err(VfsErrorKind::FileNotFound.into());
         }
+        ensure_dir(&handle.files[path])?;
         Ok(Box::new(futures::stream::iter(entries)))
     }
 
@@ -427,6 +428,13 @@ mod tests {
         assert_eq!(&dest.read_to_string().await?, "Hello World");
         Ok(())
     }
+}
+
+fn ensure_dir(file: &AsyncMemoryFile) -> VfsResult<()> {
+    if file.file_type != VfsFileType::Directory {
+        return Err(VfsErrorKind::Other("Not a directory".into()).into());
+    }
+    Ok(())
 }
 
 fn ensure_file(file: &AsyncMemoryFile) -> VfsResult<()> {
